@@ -215,13 +215,14 @@ Theorem C10_gen_register : forall st name B sz rr, nalloc st < 2 ^ 30 -> 0 <= sz
 Proof. exact gen_register_model. Qed.
 Print Assumptions C10_gen_register.
 
-(* ===== T1 for a parallel path: the ownership ledger of the binary notify recursion ================================== *)
+(* ===== T1: ownership ledgers (binary notify recursion; rehash and create / destroy pairs of the containers) ========= *)
 (* Gen/LedgerC10.v is regenerated on every run from sc_notify_recursive (src/sc_notify.c, compiled with SC_ENABLE_MPI): the
    list of ownership events (sc_array_new / init / reset / destroy / resize / push / sc_notify_merge / struct assignment) on
    the arrays `array` (the caller's), `sendbuf`, `recvbuf`, `morebuf` of one level of the recursion, as a function of the
    values c 0, c 1, .. of its branch conditions.  C10/LedgerModel.v executes such a list on an abstract state (which
-   variable holds which block, live blocks, live heap structs): a use before initialisation or after free and a double
-   free stop the run, a block that nobody frees is still live at the end.
+   variable refers to which structure, which block a structure holds, live blocks, live heap objects): a use before
+   initialisation or after free and a double free stop the run, a block or heap object that nobody frees is still live
+   at the end.
 
    For EVERY valuation of the branch conditions (every communicator size, rank and level, with or without the second
    message of a rank whose upper neighbour has no partner), entered with the caller's array holding a block or empty:
@@ -243,20 +244,75 @@ Theorem C10_gen_notify_recursive_prefix : forall c : nat -> bool,
 Proof. exact notify_recursive_prefix_only_uses. Qed.
 Print Assumptions C10_gen_notify_recursive_prefix.
 
-(* what "balanced" says in terms of the counters: after a balanced run no heap struct is live and the live blocks are
-   exactly the (at most one) block of the caller's array *)
+(* ----- the rehash of a hash table: sc_hash_maybe_resize (src/sc_containers.c), behind sc_hash_insert_unique / sc_hash_remove and
+   so behind sc_hash_array, sc_keyvalue and sc_statistics.  Entered with hash->slots pointing to a heap array (sc_array_new)
+   that holds the slot block; c1 = the conditions of the decision whether to resize, c2 = those of the rest.  On every path:
+   no use after free, no double free, and at the end exactly ONE heap array structure is live - the one hash->slots points
+   to - and exactly its block: the old structure and the old block are gone, the new ones are not lost.  (The paths that
+   return without resizing are the first statement.) *)
+Theorem C10_gen_hash_resize_ledger : forall c1 c2 : nat -> bool,
+  balanced_heap_run "hash->slots" (hash_resize_prefix_b c1) (entry_heap "hash->slots") = true /\
+  balanced_heap_run "hash->slots" (hash_resize_prefix_b c1 ++ hash_resize_ledger_b c2) (entry_heap "hash->slots") = true.
+Proof. intros c1 c2; split; [exact (hash_resize_prefix_balanced c1)|exact (hash_resize_ledger_balanced c1 c2)]. Qed.
+Print Assumptions C10_gen_hash_resize_ledger.
+
+(* ----- create / destroy pairs: the event list of the constructor followed by that of the destructor leaves the live heap
+   objects and blocks as they were.  sc_hash: cn 0 = "the caller handed in an allocator", cd 0 = hash->allocator_owned, which
+   sc_hash_new sets to the negation (hypothesis: the flag is data).  The caller's allocator survives, the own one is freed;
+   also with sc_hash_unlink_destroy, and with a rehash in between. *)
+Theorem C10_gen_hash_new_destroy : forall cn c1 c2 cd : nat -> bool, cd 0%nat = negb (cn 0%nat) ->
+  restored_run (hash_new_ledger_b cn ++ hash_destroy_ledger_b cd) (entry_ext "allocator") = true /\
+  restored_run (hash_new_ledger_b cn ++ hash_unlink_destroy_ledger_b cd) (entry_ext "allocator") = true /\
+  restored_run (hash_new_ledger_b cn ++ hash_resize_prefix_b c1 ++ hash_resize_ledger_b c2 ++ hash_destroy_ledger_b cd) (entry_ext "allocator") = true.
+Proof.
+  intros cn c1 c2 cd H; split; [exact (hash_new_destroy_restored cn cd H)|split;
+    [exact (hash_new_unlink_destroy_restored cn cd H)|exact (hash_new_resize_destroy_restored cn c1 c2 cd H)]].
+Qed.
+Print Assumptions C10_gen_hash_new_destroy.
+
+(* sc_hash_array_new then sc_hash_array_destroy: nothing is left; then sc_hash_array_rip: nothing but the element block,
+   held by the caller's structure `rip` *)
+Theorem C10_gen_hash_array_new_destroy : forall cn cd : nat -> bool,
+  restored_run (hash_array_new_ledger_b cn ++ hash_array_destroy_ledger_b cd) entry_none = true /\
+  balanced_run "rip" (hash_array_new_ledger_b cn ++ hash_array_rip_ledger_b cd) entry_none = true.
+Proof. intros cn cd; split; [exact (hash_array_new_destroy_restored cn cd)|exact (hash_array_new_rip_balanced cn cd)]. Qed.
+Print Assumptions C10_gen_hash_array_new_destroy.
+
+Theorem C10_gen_keyvalue_new_destroy : forall cn cd : nat -> bool,
+  restored_run (keyvalue_new_ledger_b cn ++ keyvalue_destroy_ledger_b cd) entry_none = true.
+Proof. exact keyvalue_new_destroy_restored. Qed.
+Print Assumptions C10_gen_keyvalue_new_destroy.
+
+(* what the three predicates say in terms of the counters (live heap objects + live blocks = what sc_memory_status counts) *)
 Theorem C10_ledger_balanced_meaning : forall a l st, balanced_run a l st = true ->
   exists st', l_run l st = Some st' /\ l_heap st' = [] /\
-    (l_live st' = [] /\ l_lookup a (l_vars st') = Empty \/ exists b, l_live st' = [b] /\ l_lookup a (l_vars st') = Own b).
+    (l_live st' = [] /\ (exists o, l_deref a st' = Some (o, Empty)) \/ exists o b, l_live st' = [b] /\ l_deref a st' = Some (o, Own b)).
 Proof. exact balanced_run_meaning. Qed.
 Print Assumptions C10_ledger_balanced_meaning.
 
+Theorem C10_ledger_balanced_heap_meaning : forall a l st, balanced_heap_run a l st = true ->
+  exists st' o, l_run l st = Some st' /\ l_var a (l_vars st') = Some o /\ l_heap st' = [o] /\
+    (l_live st' = [] /\ l_deref a st' = Some (o, Empty) \/ exists b, l_live st' = [b] /\ l_deref a st' = Some (o, Own b)).
+Proof. exact balanced_heap_run_meaning. Qed.
+Print Assumptions C10_ledger_balanced_heap_meaning.
+
+Theorem C10_ledger_restored_meaning : forall l st, restored_run l st = true ->
+  exists st', l_run l st = Some st' /\ l_heap st' = l_heap st /\ l_live st' = l_live st.
+Proof. exact restored_run_meaning. Qed.
+Print Assumptions C10_ledger_restored_meaning.
+
 (* the model is not vacuous: overwriting an array that holds a block (struct assignment or a second init) without a reset
-   in between is seen as a block that stays live, a reset of the stale copy as a double free *)
+   in between is seen as a block that stays live, a reset of the stale copy as a double free; swapping the CONTENTS of two
+   heap arrays and resetting the temporary one (seeded change C10f) leaves its structure live *)
 Example C10_ledger_sees_overwrite :
   balanced_run "array" [LInit "m"; LGrow "m"; LCopy "array" "m"] (entry_own "array") = false /\
   balanced_run "array" [LInit "m"; LReset "array"; LCopy "array" "m"] (entry_own "array") = true /\
   balanced_run "array" [LInit "m"; LReset "array"; LCopy "array" "m"; LReset "m"; LReset "array"] (entry_own "array") = false /\
   balanced_run "array" [LNew "s"; LUse "s"] (entry_own "array") = false /\
-  balanced_run "array" [LNew "s"; LDestroy "s"; LUse "s"] (entry_own "array") = false.
+  balanced_run "array" [LNew "s"; LDestroy "s"; LUse "s"] (entry_own "array") = false /\
+  balanced_heap_run "h" [LAlias "old" "h"; LNew "new"; LDestroy "old"; LAlias "h" "new"] (entry_heap "h") = true /\
+  balanced_heap_run "h" [LAlias "old" "h"; LNew "new"; LCopy "tmp" "old"; LCopy "old" "new"; LCopy "new" "tmp"; LReset "new"] (entry_heap "h") = false /\
+  balanced_heap_run "h" [LAlias "old" "h"; LNew "new"; LCopy "tmp" "old"; LCopy "old" "new"; LCopy "new" "tmp"; LDestroy "new"] (entry_heap "h") = true /\
+  restored_run [LAlloc "p"; LAlloc "q"; LFree "p"] entry_none = false /\
+  restored_run [LAlloc "p"; LFree "p"; LFree "p"] entry_none = false.
 Proof. vm_compute. repeat split. Qed.
